@@ -1,6 +1,7 @@
 package core
 
 import (
+	bolt "go.etcd.io/bbolt"
 	"encoding/json"
 	"errors"
 	"fmt"
@@ -71,8 +72,23 @@ func init() {
 			panic(err)
 		}
 		s.RunRandom(rng, *sc.Gen)
+		var final map[string]any
+		if sc.Params["cli"] == 1 && s.DB != nil {
+			_ = s.DB.View(func(tx *bolt.Tx) error { final = s.dumpBucket(tx, nil); return nil })
+		}
 		if err := s.CloseAll(); err != nil {
 			res.Failures = append(res.Failures, "close: "+err.Error())
+		}
+		if final != nil {
+			ev := cliView(s.Path, s.Prof, final, rng)
+			s.T.Add(ev)
+			res.Counters["cli_views"]++
+			if ks, ok := ev["keys"].([]map[string]any); ok {
+				res.Counters["cli_keys_listings"] += len(ks)
+			}
+			if gs, ok := ev["gets"].([]map[string]any); ok {
+				res.Counters["cli_gets"] += len(gs)
+			}
 		}
 	})
 }
